@@ -37,7 +37,8 @@ PROBES = ['served_from_partial_cache', 'tensor_after_component',
           'enum_permuted', 'deep_level_hierarchy', 'io_fault_fired',
           'io_fault_raise_accepted', 'read_after_failed_read',
           'io_fault:create', 'io_fault:open_r', 'io_fault:open_w',
-          'second_simulation_with_the_same_name']
+          'second_simulation_with_the_same_name', 'read_from_checkpoints',
+          'single_precision_3d_output']
 COMPONENTS = {
     'aurel.reading.read_data/read_ET_data/read_aurel_data/save_data/'
     'read_ET_variables/join_chunks/iterations/get_content': 'real',
@@ -114,6 +115,24 @@ def generate(rng, tier):
         ops = [{'op': 'read', 'it': [0], 'vars': [], 'rl': 0, 'restart': -1,
                 'split': True}]
     cfg['io_faults'] = io_faults
+    # single-precision 3D output next to double-precision checkpoints, and
+    # reads from the checkpoints (usecheckpoints=True) interleaved with the
+    # ordinary cached reads of the same variable / iteration / level
+    gs = rng.child('chk')
+    cfg['single_precision_3d'] = gs.chance(0.25)
+    chks = sorted({it for rs in cfg['restarts'] if not rs.get('empty')
+                   for it in rs['chk']})
+    if chks and gs.chance(0.3):
+        out = []
+        for o in ops:
+            if gs.chance(0.5):
+                both = [i for i in o['it'] if i in chks] or [gs.pick(chks)]
+                out.append({'op': 'read', 'chk': True, 'it': both,
+                            'vars': list(o['vars']) or [gs.pick(avail)],
+                            'rl': o['rl'], 'restart': -1,
+                            'split': gs.chance(0.7)})
+            out.append(o)
+        ops = out
     # a second simulation with the SAME name under another root directory,
     # read in the same session (same layout and values, other times)
     gt = rng.child('twin')
@@ -199,6 +218,8 @@ def _execute(run, plan):
     overlap = any(len(v) > 1 for v in sim.truth.values())
     if len(cfg['levels']) > 2:
         probe('deep_level_hierarchy')
+    if cfg.get('single_precision_3d'):
+        probe('single_precision_3d_output')
     cached = set()      # (restart, aurel comp, it, rl) written by split reads
     compared = audited = 0
     partial = False
@@ -215,6 +236,9 @@ def _execute(run, plan):
                           rl=op['rl'], restart=op['restart'],
                           split_per_it=op['split'], verbose=False,
                           skip_last=False)
+            if op.get('chk'):
+                kwargs['usecheckpoints'] = True
+                probe('read_from_checkpoints')
             before = digest(kwargs)
             if op.get('twin'):
                 # the other simulation of the same name: its own truth
@@ -330,7 +354,7 @@ def _execute(run, plan):
                 tag=':split' if op['split'] else ':nosplit', lossy=lossy)
             for what in sorted(set(lossy or [])):
                 probe('degraded_in_faulted_call:' + what)
-            if op['split']:
+            if op['split'] and not op.get('chk'):
                 cached |= keyset
             last_split = op['split']
             if fired is not None:
